@@ -26,7 +26,7 @@ MODULE_BODY = "<module>"
 CURATED = {
     "weights": { "load_weights": ("C02",), "Dispersion.get_pars": ("C02",),
         MODULE_BODY: ("C02",),
-        "Dispersion.__init__": ("C02",), "Dispersion.set_weights": ("C02",),
+        "Dispersion.__init__": ("C02", "C10"), "Dispersion.set_weights": ("C02", "C10"),
         "Dispersion.get_weights": ("C01", "C02", "C05", "C06", "C07", "C10", "C14",), "Dispersion._linspace": ("C01", "C02"),
         "GaussianDispersion._weights": ("C01", "C02",), "UniformDispersion._weights": ("C01", "C02",), "RectangleDispersion._weights": ("C01", "C02",),
         "LogNormalDispersion._weights": ("C01", "C02",), "SchulzDispersion._weights": ("C01", "C02",), "BoltzmannDispersion._weights": ("C01", "C02",),
@@ -35,11 +35,11 @@ CURATED = {
     },
     "resolution": {
         MODULE_BODY: ("C03", "C04"),
-        "Perfect1D.__init__": ("C03",), "Perfect1D.apply": ("C03",), "Pinhole1D.__init__": ("C03", "C04"), "Pinhole1D.apply": ("C03",),
-        "Slit1D.__init__": ("C03", "C04"), "Slit1D.apply": ("C03",), "apply_resolution_matrix": ("C03",),
+        "Perfect1D.__init__": ("C03",), "Perfect1D.apply": ("C03",), "Pinhole1D.__init__": ("C03", "C04"), "Pinhole1D.apply": ("C03", "C04"),
+        "Slit1D.__init__": ("C03", "C04"), "Slit1D.apply": ("C03", "C04"), "apply_resolution_matrix": ("C03", "C04"),
         "pinhole_resolution": ("C03", "C04"), "slit_resolution": ("C03", "C04"), "_q_perp_weights": ("C03", "C04"),
         "pinhole_extend_q": ("C03", "C04"), "slit_extend_q": ("C03", "C04"), "bin_edges": ("C03", "C04"),
-        "linear_extrapolation": ("C03",), "geometric_extrapolation": ("C03",),
+        "linear_extrapolation": ("C03", "C04"), "geometric_extrapolation": ("C03", "C04"),
     },
     "resolution2d": {
         MODULE_BODY: ("C03", "C04"),
@@ -51,7 +51,7 @@ CURATED = {
     "product": { "_tag_parameter": ("C07",), "ProductKernel.release": ("C11",), "ProductModel.release": ("C11",),
         MODULE_BODY: ("C07",),
         "make_extra_pars": ("C07",), "make_product_info": ("C07",), "_intermediates": ("C07",), "ProductModel.__init__": ("C07",),
-        "ProductModel.make_kernel": ("C07",), "ProductKernel.__init__": ("C07", "C08"), "ProductKernel.Iq": ("C07", "C08", "C11",),
+        "ProductModel.make_kernel": ("C07",), "ProductKernel.__init__": ("C06", "C07", "C08"), "ProductKernel.Iq": ("C07", "C08", "C11",),
     },
     "mixture": { "_MixtureParts.__iter__": ("C08",), "MixtureKernel.release": ("C11",), "MixtureModel.release": ("C11",),
         MODULE_BODY: ("C08",),
@@ -69,7 +69,7 @@ CURATED = {
     "details": { "CallDetails.pd_par": ("C01",), "CallDetails.pd_length": ("C01",), "CallDetails.pd_offset": ("C01",), "CallDetails.pd_stride": ("C01",), "CallDetails.num_eval": ("C01",), "CallDetails.num_weights": ("C01",), "CallDetails.num_active": ("C01",), "CallDetails.theta_par": ("C01", "C05",),
         MODULE_BODY: ("C01",),
         "CallDetails.__init__": ("C01", "C05", "C06", "C07", "C08", "C09", "C14",), "make_details": ("C01", "C05", "C06", "C07", "C08", "C09", "C14",), "make_kernel_args": ("C01", "C05", "C06", "C07", "C08", "C09", "C10", "C11", "C14", "C16",),
-        "correct_theta_weights": ("C01", "C05",), "convert_magnetism": ("C06", "C08",), "dispersion_mesh": ("C01", "C10"),
+        "correct_theta_weights": ("C01", "C05",), "convert_magnetism": ("C06", "C08", "C15"), "dispersion_mesh": ("C01", "C10"),
     },
     "kerneldll": { "DllKernel.release": ("C11",), "DllModel.release": ("C11", "C18",), "DllModel.__getstate__": ("C11",), "DllModel.__setstate__": ("C11",),
         MODULE_BODY: ("C17", "C18"),
@@ -99,7 +99,7 @@ CURATED = {
     "core": { "merge_deps": ("C16",), "precompile_dlls": ("C17",),"build_model": ("C15", "C17"), "parse_dtype": ("C15",), "reparameterize": ("C16",), "load_model": ("C17",), "load_model_info": ("C17",)},
     "generate": { "_kernels": ("C01", "C09", "C17",), "_search": ("C17",), "load_kernel_module": ("C17",), "read_text": ("C17",), "get_data_path": ("C17",), "_clean_source_filename": ("C17",),
         MODULE_BODY: ("C15", "C17"),
-        "tag_source": ("C17",), "convert_type": ("C15",), "_convert_type": ("C15",), "_fix_tgmath_int": ("C15",), "_tag_float": ("C15",),
+        "tag_source": ("C17", "C18"), "convert_type": ("C15",), "_convert_type": ("C15",), "_fix_tgmath_int": ("C15",), "_tag_float": ("C15",),
         "_split_translation": ("C16",), "_build_translation": ("C16",), "_build_translation_vars": ("C16",), "_build_validity_check": ("C16",),
         "find_xy_mode": ("C09",), "contains_Fq": ("C09", "C14"), "contains_shell_volume": ("C09",), "_gen_fn": ("C09",), "_call_pars": ("C09", "C16"),
         "make_source": ("C09", "C16", "C17"), "load_template": ("C17",), "model_sources": ("C17",), "_add_source": ("C17",), "kernel_name": ("C17",),
